@@ -176,3 +176,170 @@ func f32FromText(s string) float32 {
 	}
 	return float32(f)
 }
+
+// ---------------------------------------------------------------- references ${name}
+
+// The properties syntax lets a value refer to other keys of the file and to environment
+// variables.  The histories generate such values; what they are worth is decided by the
+// specification (FileConfig.tla, Expand) from the file's lines and the recorded environment.
+// The expansion below is the harness's own reading of the rule and is used for STEERING only
+// (which files does the parser reject as a whole; which tokens the hash tables must cover).
+
+// variables the histories set before the constructor runs and never touch again: the values a
+// reference has must not change between a load and the getters that follow it
+var refEnvPool = [][2]string{{"C18_BASE", "/opt/whatap"}, {"C18_N", "14"}, {"C18_FLAG", "true"}, {"C18_EMPTY", ""},
+	{"C18_PAD", " 7 "}, {"C18_LIST", "1,2,x"}, {"C18_NEG", "-3"}, {"c18.dotted", "2.5"}}
+
+// names no history ever sets
+var refUnset = []string{"C18_UNSET", "undefined.name", "no such", "키없음_ref"}
+
+const (
+	refsNone     = iota
+	refsLoadable // only files the parser accepts; references only on plain `k=v` lines
+	refsAny      // also circular and unterminated references: the parser rejects the file
+)
+
+func goExpand(s string, stack []string, m, env map[string]string) (string, bool) {
+	if len(stack) > 64 {
+		return "", false
+	}
+	for {
+		i := strings.Index(s, "${")
+		if i < 0 {
+			return s, true
+		}
+		j := strings.Index(s[i+2:], "}")
+		if j < 0 {
+			return "", false
+		}
+		name := s[i+2 : i+2+j]
+		for _, k := range stack {
+			if k == name {
+				return "", false
+			}
+		}
+		v, ok := m[name]
+		if !ok {
+			v = env[name]
+		}
+		x, ok := goExpand(v, append(append([]string(nil), stack...), name), m, env)
+		if !ok {
+			return "", false
+		}
+		s = s[:i] + x + s[i+2+j+1:]
+	}
+}
+
+func rawMap(ls []Line) map[string]string {
+	m := map[string]string{}
+	for _, l := range ls {
+		if l.T == "kv" {
+			m[string(l.K)] = string(l.V)
+		}
+	}
+	return m
+}
+
+// loadable: would the parser accept the file (harness's reading; the verdict is TLC's)
+func (w *world) loadable() bool {
+	m := rawMap(w.lines)
+	for k, v := range m {
+		if _, ok := goExpand(v, []string{k}, m, w.env); !ok {
+			return false
+		}
+	}
+	return true
+}
+
+func simpleKey(k string) bool {
+	if k == "" {
+		return false
+	}
+	for i := 0; i < len(k); i++ {
+		c := k[i]
+		if !(c >= 'a' && c <= 'z' || c >= 'A' && c <= 'Z' || c >= '0' && c <= '9' || c == '_' || (i > 0 && (c == '.' || c == '-'))) {
+			return false
+		}
+	}
+	return true
+}
+
+// fixEnv sets some of the pool's variables for this history (recorded in Reset.penv)
+func (w *world) fixEnv() {
+	for _, kv := range refEnvPool {
+		if inherited()[kv[0]] {
+			continue
+		}
+		if w.r.Intn(3) > 0 {
+			if err := os.Setenv(kv[0], kv[1]); err != nil {
+				panic(err)
+			}
+			w.env[kv[0]] = kv[1]
+		}
+	}
+}
+
+// refTarget: a name to refer to: a key of the file (self: the line's own key -- circular),
+// a variable of the pool (set or not in this history), a name nobody defines.  Never a name
+// the history's Env events set or unset (w.envEver): see refEnvPool.
+func (w *world) refTarget(self string) string {
+	r := w.r
+	for tries := 0; tries < 30; tries++ {
+		var k string
+		switch x := r.Intn(10); {
+		case x < 5:
+			var ks []string
+			for _, l := range w.lines {
+				if l.T == "kv" && string(l.K) != self {
+					ks = append(ks, string(l.K))
+				}
+			}
+			if len(ks) == 0 {
+				continue
+			}
+			k = ks[r.Intn(len(ks))]
+		case x < 6 && w.refs == refsAny:
+			k = self
+		case x < 9:
+			k = refEnvPool[r.Intn(len(refEnvPool))][0]
+		default:
+			k = refUnset[r.Intn(len(refUnset))]
+		}
+		if k == "" || strings.ContainsAny(k, "}\x00") || w.envEver[k] || inherited()[k] || (w.refPlain && k == "C18_PAD") {
+			continue
+		}
+		w.refd[k] = true
+		return k
+	}
+	k := refEnvPool[0][0]
+	w.refd[k] = true
+	return k
+}
+
+// refValue: a value that uses the reference syntax
+func (w *world) refValue(self string) string {
+	r := w.r
+	t := func() string { return "${" + w.refTarget(self) + "}" }
+	switch x := r.Intn(16); {
+	case x < 4:
+		return t()
+	case x < 6:
+		return t() + "/logs"
+	case x == 6:
+		return "pre-" + t() + ".post"
+	case x == 7:
+		return t() + t()
+	case x == 8:
+		return t() + "," + t() + ";" + []string{"3", "x", ""}[r.Intn(3)]
+	case x == 9 && !w.refPlain:
+		return " " + t() + "  " // blanks the getters trim
+	case x == 10:
+		return []string{"${}", "$" + t(), "}" + t() + "{", "$ {not a reference}", t() + "}", "$$", "{" + t()}[r.Intn(7)]
+	case x == 11:
+		return "1" + t() // digits glued to a value
+	case x == 12 && w.refs == refsAny:
+		return []string{"${", "${open", "x${" + w.refTarget(self), t() + "${"}[r.Intn(4)] // no closing brace
+	default:
+		return t()
+	}
+}
